@@ -7,7 +7,7 @@ These are the *scalar* definitions of `src/yaml/simd/mod.rs` (`find_*_scalar`,
 A buffer is a `List (BitVec 8)`; a forward scan `while pos < len { … input[pos] … pos += 1 }` is a
 structural recursion over the suffix `input[pos..]` carrying `pos`.
 -/
-namespace SV.Yaml
+namespace SV.YamlK
 
 abbrev Byte := BitVec 8
 
@@ -145,4 +145,4 @@ def clampSpellings : List (List Char) :=
 /-- The documented no-op spellings. -/
 def noClampSpellings : List (List Char) := [['a','v','x','2'], []]
 
-end SV.Yaml
+end SV.YamlK
